@@ -7,7 +7,7 @@
                       (c = true: a crash is not held against the clause)
      spec_from        the whole property = judge spec_ok false (what check_case evaluates on gorm's answers)
      hist_known h     h puts the book into one of the five known-finding classes (input only)  *)
-From Verif Require Import Base C17_Model C17_Check C17_Known C17_Proofs C17_Proofs2 C17_Proofs3
+From Verif Require Import Base C17_Model C17_Check C17_Known C17_Proofs C17_Proofs2 C17_Proofs3 C17_Proofs4
   C17_Plugin5 C17_Exh1 C17_Exh3 C17_Exh7.
 From Coq Require Import Permutation.
 Open Scope string_scope.
@@ -53,16 +53,39 @@ Print Assumptions c17_spec_decomposes.
 
 (* ---- refuted at full strength: witnesses (each replayed on the real code, corpus/C17) ------- *)
 
-(* "either an error is returned": After(u2).Register(u1); After(u1).Register(u2) is in the domain and
-   the recursion of sortCallback never ends (the real process dies of a stack overflow) *)
-Theorem c17_no_crash_refuted : exists h,
-  in_domain h = true /\ last (run h) (OOk []) = OCrash /\ runs cl_true false h = false.
-Proof. exists w_cycle. exact cycle_crashes. Qed.
-Print Assumptions c17_no_crash_refuted.
+(* "either an error is returned": with the depth guard of /repo 591f9f1 (modelled: fuel 2|cs|+2, then the
+   error "conflicting callback .. with cyclic before/after") the model NEVER answers with a dead process,
+   for any history.  (Before that commit: c17_no_crash_refuted, witness After(u2).Register(u1);
+   After(u1).Register(u2), fatal stack overflow on the real code.) *)
+Theorem c17_never_crashes : forall h, judge cl_true false r0 0%N None O h (run h) = true.
+Proof. exact history_never_crashes. Qed.
+Print Assumptions c17_never_crashes.
 
-Theorem c17_self_target_refuted : exists h, in_domain h = true /\ last (run h) (OOk []) = OCrash.
-Proof. exists w_self. exact self_crashes. Qed.
-Print Assumptions c17_self_target_refuted.
+(* the two former crash witnesses now get the error, and the whole property holds on them *)
+Theorem c17_cycle_detected :
+  (in_domain w_cycle = true
+   /\ last (run w_cycle) OCrash = OErr "conflicting callback u1 with cyclic before/after" []
+   /\ runs spec_ok false w_cycle = true)
+  /\ (in_domain w_self = true
+      /\ last (run w_self) OCrash = OErr "conflicting callback u1 with cyclic before/after" []
+      /\ runs spec_ok false w_self = true).
+Proof. exact (conj cycle_detected self_detected). Qed.
+Print Assumptions c17_cycle_detected.
+
+(* ... but not every cycle is detected: a callback naming itself, and a cycle through three callbacks,
+   are answered nil with a callback on the wrong side *)
+Theorem c17_cycle_silent_refuted :
+  (exists h, in_domain h = true /\ runs cl_sides true h = false
+             /\ self_target (r_live (book r0 0%N h)) = true)
+  /\ (exists h, in_domain h = true /\ runs cl_sides true h = false
+                /\ (let live := r_live (book r0 0%N h) in
+                    cyclic (map e_name live) (builtin_chain None live ++ named_edges live) = true)).
+Proof.
+  split.
+  - exists w_self_silent. pose proof self_silent as H. split; [tauto|]. split; [tauto|]. vm_compute. reflexivity.
+  - exists w_cycle_silent. pose proof cycle_silent as H. tauto.
+Qed.
+Print Assumptions c17_cycle_silent_refuted.
 
 (* Replace: Before("*").Register(u1); Replace(u1) runs the OLD handler, at another position *)
 Theorem c17_replace_refuted : exists h,
